@@ -63,6 +63,9 @@ func (SlidingWindow) New(cfg Config) fiber.Handler {
 			// the next request and not show the correct expiry.
 			elapsed := ts - e.exp
 			if elapsed >= expiration {
+				// A whole window went by without a hit, so the window before
+				// the new one is empty and nothing carries over.
+				e.prevHits = 0
 				e.exp = ts + expiration
 			} else {
 				e.exp = ts + expiration - elapsed
